@@ -505,6 +505,7 @@ func checkProperty(id, tier string) int {
 		}(r)
 	}
 
+	var extraResults []*ObligResult
 	// discharge
 	results := make([]*ObligResult, len(order))
 	var dwg sync.WaitGroup
@@ -521,8 +522,60 @@ func checkProperty(id, tier string) int {
 	dwg.Wait()
 	cwg.Wait()
 
+	// callers-only clauses of the functions under contract
+	for _, r := range runs {
+		c := P.contractFor(r.fn)
+		if c == nil || len(c.CallersOnly) == 0 {
+			continue
+		}
+		allowed := map[string]bool{}
+		for _, a := range c.CallersOnly {
+			allowed[a] = true
+		}
+		var bad []string
+		for _, caller := range P.Funcs {
+			if !isRepoFunc(caller) || caller.Blocks == nil {
+				continue
+			}
+			for _, b := range caller.Blocks {
+				for _, instr := range b.Instrs {
+					var cc *ssa.CallCommon
+					switch in := instr.(type) {
+					case *ssa.Call:
+						cc = in.Common()
+					case *ssa.Go:
+						cc = &in.Call
+					case *ssa.Defer:
+						cc = &in.Call
+					}
+					uses := false
+					if cc != nil && cc.StaticCallee() == r.fn {
+						uses = true
+					}
+					// the function value escaping (method value, closure binding) also counts
+					if mc, ok := instr.(*ssa.MakeClosure); ok {
+						if f, ok := mc.Fn.(*ssa.Function); ok && f.Synthetic != "" && strings.Contains(f.Name(), r.fn.Name()+"$bound") {
+							uses = true
+						}
+					}
+					if uses && !allowed[funcKey(caller)] {
+						bad = append(bad, fnDisplay(caller))
+					}
+				}
+			}
+		}
+		sort.Strings(bad)
+		res := &ObligResult{Name: fnDisplay(r.fn) + "#frame:callers-only", Kind: "frame", Paths: 1, Backend: "call-graph scan", Result: "discharged", Note: "allowed callers: " + strings.Join(c.CallersOnly, ", ")}
+		if len(bad) > 0 {
+			res.Result = "undecided"
+			res.Note += "; also called from: " + strings.Join(bad, ", ")
+		}
+		extraResults = append(extraResults, res)
+	}
+
 	// lemmas
 	lemmaResults := runLemmas(P, prop, timeoutS, all)
+	results = append(results, extraResults...)
 	results = append(results, lemmaResults...)
 
 	// classify
